@@ -7,7 +7,7 @@ import subprocess
 import sys
 import numpy as np
 
-from .. import cutfind, workflow
+from .. import canon, cutfind, workflow
 from ..core import call_real, VERIF
 from . import c05
 
@@ -24,7 +24,12 @@ RULE = ("target find_cuts requests (integer-kappa circuits, compared exactly wit
         "object to every call - circuits narrower than the device, wider ones, then the target - compared with the history-free call on fresh equal objects; "
         "sessions that hand one QuantumCircuit object to several calls (identical request repeated, other settings in between; solutions of wire cuts "
         "only, gate cuts only, both) compared with the call on a freshly built equal circuit; exact-weight generation for problems with 7-9 "
-        "observables in several bases (PauliList inputs, separated and unseparated form) repeated in fresh interpreters under two PYTHONHASHSEEDs")
+        "observables in several bases (PauliList inputs, separated and unseparated form) repeated in fresh interpreters under two PYTHONHASHSEEDs; "
+        "circuits handed over the way callers hold them - a copy of the built circuit, or assembled with QuantumCircuit's gate methods, so that "
+        "their standard gates are handed out as temporaries - with several parametric two-qubit gates of distinct angles (rzx, xx+-yy, rzz, cp, crx), "
+        "the identical request repeated 6 times with other calls, allocations and collections in between (every repeat must return the first "
+        "answer); parameter sweeps of exact-weight generation (16 one-cut problems of one shape with distinct angles, separated and unseparated form, each built, "
+        "used, dropped and collected before the next) compared with the same problems generated while all of them are alive")
 ASSUMPTIONS = ["Python aliasing and interpreter-level state are outside the Lean model; they are observed by the runtime monitors of this check",
                "the seeded numpy Generator stream is a function of the integer seed (numpy's contract)"]
 LEVEL_TEXT = ("6 Lean 4 theorems over an explicit-global-state model (every call returns the globals it was given, hence outputs are independent of "
@@ -189,12 +194,69 @@ def _observables_family():
                             "always_oracle": True})
 
 
+def _rot(name, a, b, *ps):
+    return {"name": name, "qubits": [a, b], "params": list(ps)}
+
+
+def _handed(nq, instrs, width, seed, how, **kw):
+    t = {"nq": nq, "instrs": instrs, "seed": seed, "max_gamma": 1e6, "max_backjumps": None, "gate_lo": True, "wire_lo": True, "width": width,
+         "exact": False, "handover": how}
+    t.update(kw)
+    return t
+
+
+def _handover_family():
+    """deterministic: the circuit reaches find_cuts the way callers usually hold it - as a copy of the circuit they built
+    (QuantumCircuit.copy) or assembled with QuantumCircuit's gate methods (qc.rzx(...)) - so that its standard gates live in the circuit's
+    native storage and every `instruction.operation` access hands out a temporary Python object (the harness otherwise appends gate
+    objects, which the circuit keeps).  The circuits carry several PARAMETRIC two-qubit gates with pairwise distinct angles: gates without
+    a dedicated decomposition (rzx, xx_plus_yy, xx_minus_yy), mixed with registered ones (rzz, cx, cp, crx).  The identical request is
+    repeated with other calls, allocations and collections in between; every repeat must return what the first call returned"""
+    sc = [17, 4, 3]
+    # the gates that are cheapest to cut come late in the circuit, after several other rotations
+    kak3 = [_rot("xx_plus_yy", 0, 1, 0.7, 0.0), _rot("rzx", 0, 1, 1.1), _g("rx", 1, params=[0.2]), _rot("xx_minus_yy", 0, 1, 2.1, 0.3), _g("h", 2),
+            _rot("rzx", 1, 2, 0.15), _g("rx", 2, params=[1.3]), _rot("xx_plus_yy", 1, 2, 0.35, 0.0)]
+    mixed = [_rot("rzx", 0, 1, 0.1), _rot("rzz", 1, 2, 0.7), _g("rx", 1, params=[0.3]), _rot("rzx", 2, 3, 1.3), _g("cx", 0, 1), _rot("rzx", 1, 2, 1.1),
+             _g("sx", 2), _rot("rzx", 0, 2, 0.9)]
+    rzx3 = [_rot("rzx", 0, 1, 1.4), _rot("rzx", 1, 2, 0.6), _g("ry", 1, params=[0.4]), _rot("rzx", 0, 1, 0.25), _rot("rzx", 1, 2, 0.9)]
+    known = [_rot("rzz", 0, 1, 0.3), _rot("cp", 1, 2, 1.1), _g("ry", 1, params=[0.4]), _rot("crx", 2, 3, 0.6), _rot("rxx", 1, 2, 0.15), _rot("rzz", 0, 1, 1.4),
+             _rot("cp", 2, 3, 0.8)]
+    fams = [
+        (_handed(3, kak3, 2, 5, "copy"), [_handed(3, rzx3, 2, 2, "copy")]),
+        (_handed(4, mixed, 2, 7, "methods"), [_handed(3, rzx3, 2, 1, "methods")]),
+        (_handed(4, known, 2, 11, "methods"), [_handed(3, rzx3, 2, 3, "copy")]),
+    ]
+    for tgt, between in fams:
+        yield ("history", {"target": tgt, "history": [], "repeats": 6, "between": between, "scramble": list(sc), "fresh": False,
+                           "always_oracle": True})
+
+
+def _sweep_problem(gates, nq=2, part=(0, 1), obs=("ZZ",), form="dict"):
+    return _obs_problem(nq, [_g("h", q) for q in range(nq)] + gates, list(part), list(obs), list(range(len(set(part)))), form=form)
+
+
+def _sweep_family():
+    """deterministic: a parameter sweep of exact-weight generation - many small cutting problems of one shape whose cut gates differ in
+    kind and angle, each one built, handed to generate_cutting_experiments(num_samples=inf), dropped and collected before the next one
+    is built (so the interpreter re-uses the memory of the previous problem's objects for the next one's) - compared with the same
+    problems generated while all of them are alive.  The result for a problem is a function of that problem alone"""
+    sc = [2, 9, 1]
+    kinds = ["rzz", "cp", "ryy", "crx"]
+    one_kind = [_sweep_problem([_rot("rzz", 0, 1, round(0.2 + 0.05 * k, 4))], obs=("ZZ", "XX")) for k in range(16)]
+    one = [_sweep_problem([_rot(kinds[k % 4], 0, 1, round(0.15 + 0.07 * k, 4))]) for k in range(16)]
+    single = [_sweep_problem([_rot(kinds[(k + 1) % 4], 0, 1, round(0.3 + 0.06 * k, 4))], form="single") for k in range(16)]
+    for probs in (one_kind, one, single):
+        yield ("generate", {"problem": probs[1], "history": [], "sweep": probs, "scramble": list(sc), "always_oracle": True})
+
+
 def cases(rng, tier):
     N = 36 if tier == "quick" else 300
     yield from _limits_family()
     yield from _session_family()
     yield from _circuit_family()
     yield from _observables_family()
+    yield from _handover_family()
+    yield from _sweep_family()
     for _ in range(2 if tier == "quick" else 8):
         yield ("history", {"target": _mixed_target(rng), "history": [cutfind.gen_case(rng, tier) for _ in range(2)],
                            "scramble": [rng.randrange(1 << 30), rng.randrange(1 << 30), rng.randint(0, 50)], "fresh": True, "hashseeds": True,
@@ -224,6 +286,8 @@ def cases(rng, tier):
             hist.insert(rng.randint(0, len(hist)), {"special": "engine"})   # somebody tries another engine on a private settings object
         if rng.random() < 0.3 and target["width"] >= 1:
             target["reuse_constraints"] = rng.choice(["edit", "copy"])
+        elif kak and i % 2 == 0:
+            target["handover"] = "copy"   # the caller hands over a copy of the circuit (no random draw: the stream of cases stays as it was)
         yield ("history", {"target": target, "history": hist, "scramble": [rng.randrange(1 << 30), rng.randrange(1 << 30), rng.randint(0, 50)],
                            "fresh": (i % (8 if tier == "quick" else 10) == 0)})
     for _ in range(N // 2):
@@ -260,10 +324,177 @@ def _mixed_target(rng):
             "gate_lo": True, "wire_lo": True, "width": width, "exact": True}
 
 
+_METHODS = {"id", "x", "y", "z", "h", "s", "sdg", "sx", "sxdg", "t", "tdg", "rx", "ry", "rz", "p", "cx", "cy", "cz", "ch", "cs", "csdg", "csx", "ecr", "swap",
+            "iswap", "dcx", "rxx", "ryy", "rzz", "rzx", "crx", "cry", "crz", "cp", "ccx", "cswap", "ccz"}
+
+
+def _handover(qc, payload):
+    """the caller's circuit as it reaches find_cuts (payload key "handover", absent in older payloads): "copy" - a QuantumCircuit.copy()
+    of the built circuit; "methods" - the same instructions assembled with QuantumCircuit's gate methods (qc.rzx(theta, a, b) ...; an
+    instruction without such a method is appended as an object).  Either way an equal circuit (checked), whose standard gates are kept
+    in the circuit's native storage and handed out as temporaries"""
+    how = payload.get("handover")
+    if not how:
+        return qc
+    if how == "copy":
+        given = qc.copy()
+    else:
+        given = qc.copy_empty_like()
+        for ins, inst in zip(payload["instrs"], qc.data):
+            qs = [given.qubits[qc.find_bit(q).index] for q in inst.qubits]
+            if ins["name"] in _METHODS and not inst.clbits and getattr(inst.operation, "label", None) is None:
+                getattr(given, ins["name"])(*[float(x) for x in inst.operation.params], *qs)
+            else:
+                given.append(inst.operation, qs, list(inst.clbits))
+    if given != qc:
+        raise RuntimeError("harness: the handed-over circuit is not equal to the built one")
+    return given
+
+
+def _run_plain(payload):
+    """cutfind.run_real, with the circuit handed over as the payload says"""
+    if not payload.get("handover") or payload.get("special") or payload.get("reuse_constraints"):
+        return cutfind.run_real(payload)
+    from qiskit_addon_cutting import find_cuts, DeviceConstraints
+    qc = cutfind.build(payload)
+    o, width = cutfind._params(payload)
+    out, meta = find_cuts(_handover(qc, payload), o, DeviceConstraints(width))
+    return {"ok": cutfind.canon_output(qc, out, meta)}
+
+
+def _r9(x):
+    if isinstance(x, np.ndarray):
+        return canon.canon_param(x)
+    try:
+        return round(float(x), 9)
+    except Exception:
+        return str(x)
+
+
+def _light_call(payload):
+    """one find_cuts call, read off completely but cheaply: every instruction of the returned circuit (name, qubits, parameters, label; for
+    a cut gate the coefficients and the operations of its decomposition) and the metadata"""
+    from qiskit_addon_cutting import find_cuts, DeviceConstraints
+    if payload.get("special"):
+        return cutfind.run_real(payload)
+    try:
+        qc = cutfind.build(payload)
+        o, width = cutfind._params(payload)
+        out, meta = find_cuts(_handover(qc, payload), o, DeviceConstraints(width))
+    except ValueError:
+        return {"error": "ValueError"}
+    insts = []
+    for inst in out.data:
+        op = inst.operation
+        e = [op.name, [out.find_bit(q).index for q in inst.qubits], [_r9(x) for x in op.params], op.label]
+        if op.name == "qpd_2q":
+            b = op.basis
+            e.append([[_r9(c) for c in b.coeffs], [[[[g.name, [_r9(x) for x in g.params]] for g in side] for side in m] for m in b.maps]])
+        insts.append(e)
+    return {"instructions": insts, "cuts": [[c[0], int(c[1])] for c in meta["cuts"]], "overhead": float(meta["sampling_overhead"]),
+            "minimum_reached": bool(meta["minimum_reached"])}
+
+
+def _light_diff(x, y):
+    if "error" in x or "error" in y:
+        return f"{json.dumps(x)[:80]} vs {json.dumps(y)[:80]}"
+    out = []
+    for k in ("overhead", "cuts", "minimum_reached"):
+        if x[k] != y[k]:
+            out.append(f"{k} {json.dumps(x[k])[:70]} vs {json.dumps(y[k])[:70]}")
+    if x["instructions"] != y["instructions"]:
+        cut = lambda r: [k for k, e in enumerate(r["instructions"]) if e[0] in ("qpd_2q", "cut_wire")]   # noqa: E731
+        if cut(x) != cut(y):
+            out.append(f"cut positions in the returned circuit {cut(x)} vs {cut(y)}")
+        else:
+            out.append("the decompositions attached to the cut gates differ")
+    return "; ".join(out)
+
+
+def _repeats(tgt, n, between):
+    """the identical request n more times; between the calls the process does what processes do: other find_cuts calls, allocations
+    that stay, releases and collections.  Returns the notes (every call must return what the first one returned)"""
+    import gc
+    first = _light_call(tgt)
+    keep = []
+    for i in range(n):
+        other = between[i % len(between)] if between else tgt
+        if i % 3 == 0:
+            # the caller builds further circuits, looks at their instructions and keeps what it looked at
+            held = [_handover(cutfind.build(other), other) for _ in range(i + 2)]
+            keep.append((held, [inst.operation for c in held for inst in c.data][: 3 + i]))
+        elif i % 3 == 1:
+            keep.clear()
+            gc.collect(1)
+            _light_call(other)
+        else:
+            mine = _handover(cutfind.build(tgt), tgt)
+            keep.append(([[float(j)] for j in range(40 * (i + 1))], [inst.operation for inst in mine.data][i % 2::2]))
+        r = _light_call(tgt)
+        if r != first:
+            held = {"copy": "a copy of the built circuit", "methods": "the circuit assembled with QuantumCircuit's gate methods"}.get(tgt.get("handover"), "the circuit")
+            return [f"the identical find_cuts request ({held}, DeviceConstraints({tgt['width']}), seed {tgt['seed']}) returned another result at "
+                    f"call {i + 2} than at call 1 of this case (other calls, allocations and collections in between): {_light_diff(r, first)}"]
+    return []
+
+
+def _gen_light(problem):
+    """exact-weight generation for a freshly built problem, read off cheaply: coefficients with their weight types, and every instruction
+    of every subexperiment.  Returns (the built inputs - the caller decides how long they live -, the reading)"""
+    from qiskit_addon_cutting import generate_cutting_experiments
+    circuits, observables, _ = c05._inputs0(problem)
+    exps, coeffs = generate_cutting_experiments(circuits, observables, np.inf)
+
+    def circ(c):
+        return [[i.operation.name, [c.find_bit(q).index for q in i.qubits], [c.find_bit(b).index for b in i.clbits], [_r9(x) for x in i.operation.params]]
+                for i in c.data]
+    if isinstance(exps, dict):
+        ex = [[workflow.label_index(problem, lab), [circ(c) for c in cs]] for lab, cs in exps.items()]
+    else:
+        ex = [[0, [circ(c) for c in exps]]]
+    return (circuits, observables), {"coefficients": [[repr(float(c)), w.name] for c, w in coeffs], "experiments": ex}
+
+
+def _sweep(problems):
+    """first every problem of the sweep generated as a batch (all of them alive until the batch is done, then dropped), then the sweep
+    proper: build, generate, drop, collect, next.  Returns the notes (equal arguments, equal results)"""
+    import gc
+    alive, ref = [], []
+    for p in problems:
+        objs, r = _gen_light(p)
+        alive.append(objs)
+        ref.append(r)
+    del alive, objs
+    gc.collect()
+    bad = []
+    gc.freeze()   # what exists now is not looked at by the collections below (they only have to find each dropped problem): cheap
+    try:
+        for k, p in enumerate(problems):
+            objs, r = _gen_light(p)
+            if r != ref[k]:
+                what = ("the coefficients differ: " + json.dumps([c for c, _ in r["coefficients"]])[:90] + " vs " + json.dumps([c for c, _ in ref[k]["coefficients"]])[:90]
+                        if r["coefficients"] != ref[k]["coefficients"] else "the subexperiments differ")
+                bad.append((k, what))
+            del objs
+            gc.collect()
+    finally:
+        gc.unfreeze()
+    if bad:
+        k, what = bad[0]
+        gates = [i for i in problems[k]["instrs"] if len(i["qubits"]) == 2]
+        return [f"exact-weight generation in a sweep (each problem built, generated, dropped and collected before the next): {len(bad)} of {len(problems)} "
+                f"problems give another result than the same problems generated as a batch (all alive) just before; first: problem {k} "
+                f"(cut gates {json.dumps(gates)}): {what}"]
+    return []
+
+
 def _fresh(target, hashseed=None):
     # the same error mapping as core.call_real: a refusal in the fresh interpreter is a result, not a crash
     code = ("import sys, json; sys.path.insert(0, %r); from harness import cutfind, core; "
             "print('RESULT' + json.dumps(core.call_real(cutfind.run_real, json.loads(sys.argv[1]), timeout=280)))" % str(VERIF))
+    if target.get("handover"):
+        code = ("import sys, json; sys.path.insert(0, %r); from harness import core; from harness.props import c09; "
+                "print('RESULT' + json.dumps(core.call_real(c09._run_plain, json.loads(sys.argv[1]), timeout=280)))" % str(VERIF))
     import os
     env = dict(os.environ)
     if hashseed is not None:
@@ -348,10 +579,10 @@ def run_real(kind, payload):
             # reference: a freshly built circuit object that no other call ever sees
             a = call_real(lambda p: _run_with(p, own_reading=True), tgt, timeout=300)
         else:
-            a = call_real(lambda p: cutfind.run_real(p), tgt, timeout=300)
+            a = call_real(lambda p: _run_plain(p), tgt, timeout=300)
         if _fingerprint() != f0:
             notes.append("global tables changed by the target call")
-        run = cutfind.run_real
+        run = _run_plain
         if sess:
             # the caller's own objects, built once (equal to the ones the reference call `a` built for itself) and handed to every call
             from qiskit_addon_cutting import DeviceConstraints
@@ -372,7 +603,7 @@ def run_real(kind, payload):
             notes.append("find_cuts consumed a global random generator")
         if tgt.get("reuse_constraints"):
             # the same request with a freshly constructed, equal constraints object
-            a2 = call_real(lambda p: cutfind.run_real(p), {k: v for k, v in tgt.items() if k != "reuse_constraints"}, timeout=300)
+            a2 = call_real(lambda p: _run_plain(p), {k: v for k, v in tgt.items() if k != "reuse_constraints"}, timeout=300)
             if a2 != a:
                 notes.append(f"an edited DeviceConstraints object equal to DeviceConstraints({tgt['width']}) gives {json.dumps(a)[:120]}, "
                              f"a fresh one {json.dumps(a2)[:120]}")
@@ -389,6 +620,10 @@ def run_real(kind, payload):
                             f"{[i.operation.name for i in circ.data]}"[:400])
                 how += ")"
             notes.append(f"result changed after the history{how}: {json.dumps(a)[:150]} -> {json.dumps(b)[:150]}{_diff(a, b)}")
+        if payload.get("repeats") and "error" not in a:
+            notes.extend(_repeats(tgt, int(payload["repeats"]), payload.get("between") or payload["history"]))
+            if _fingerprint() != f0:
+                notes.append("global tables changed by the repeated calls")
         if payload.get("fresh"):
             for hs in ((None,) if not payload.get("hashseeds") else (1, 3)):
                 c = _fresh(tgt, hs)
@@ -407,6 +642,8 @@ def run_real(kind, payload):
         a = {"error": "ValueError"}
     for h in payload["history"]:
         call_real(lambda q: cutfind.run_real(q), h, timeout=300)
+    if payload.get("sweep"):
+        notes.extend(_sweep(payload["sweep"]))
     _scramble(payload["scramble"])
     s0 = _rng_states()
     try:
@@ -468,6 +705,25 @@ def nontrivial_key(kind, payload):
 
 
 def oracle(kind, payload):
+    if kind == "history" and payload.get("repeats") and not payload.get("session") and not payload["history"] and not payload.get("fresh"):
+        # the repeated-request cases: the same clause (every call of the identical request returns what the first one returned) on a
+        # longer series, read off with the cheap complete reading only
+        f0 = _fingerprint()
+        tgt = {k: v for k, v in payload["target"].items() if not k.startswith("_")}
+
+        def series(p):
+            _scramble(p["scramble"])
+            s0 = _rng_states()
+            notes = _repeats(tgt, int(p["repeats"]) + 2, p.get("between") or [])
+            if _rng_states() != s0:
+                notes.append("find_cuts consumed a global random generator")
+            if _fingerprint() != f0:
+                notes.append("global tables changed by the repeated calls")
+            return {"notes": notes}
+        real = call_real(series, payload, timeout=600)
+        if real.get("notes"):
+            return "; ".join(real["notes"])
+        return None
     if kind == "history" and not payload.get("fresh") and _suspect["budget"] > 0:
         _suspect["budget"] -= 1
         payload = dict(payload, fresh=True)
